@@ -177,10 +177,11 @@ type Witness struct {
 	Msgs    [][]byte `json:"msgs,omitempty"`
 	Text    []string `json:"msgs_quoted,omitempty"`
 	Bulk    *Bulk    `json:"bulk,omitempty"`
+	Scen    *Scen    `json:"scenario,omitempty"`
 }
 
 func witnessOf(j *Job) Witness {
-	w := Witness{Backend: j.Backend, Shadow: j.Shadow, Msgs: j.Msgs, Bulk: j.Bulk}
+	w := Witness{Backend: j.Backend, Shadow: j.Shadow, Msgs: j.Msgs, Bulk: j.Bulk, Scen: j.Scen}
 	for _, m := range j.Msgs {
 		w.Text = append(w.Text, q(m))
 	}
@@ -399,7 +400,7 @@ func (r *runner) crashReport(j Job, end childEnd) *caseReport {
 		clause, disc, head = "no-wedge", "process-hang", "child produced no output until the watchdog fired"
 	}
 	kind := "bulk"
-	if len(j.Msgs) > 0 {
+	if len(j.Msgs) > 0 || j.Scen != nil {
 		kind = "setup"
 		if end.lastMsg != nil {
 			kind = classify(end.lastMsg).Kind
@@ -504,7 +505,7 @@ func (r *runner) resultReport(j Job, res *Result) *caseReport {
 		}
 	}
 	jd := judge(res)
-	rep.viols, rep.outcomes, rep.nontriv, rep.handles = jd.viols, jd.outcomes, jd.nontrivial, jd.handles
+	rep.viols, rep.outcomes, rep.nontriv, rep.handles = jd.viols, jd.outcomes, jd.nontrivial, jd.handles+len(res.ExtWrites)
 	rep.unsett = !res.Settled
 	if res.OpenQ > 0 || res.OpenS > 0 {
 		// not part of the statement and timing dependent (the entry is removed after the last reply was sent)
@@ -574,6 +575,43 @@ func buildJobs(c *vlib.Ctx) (jobs []Job, counts map[string]int) {
 	add := func(cf config, msgs [][]byte, class string) {
 		jobs = append(jobs, Job{Backend: cf.backend, Shadow: cf.shadow, Msgs: msgs})
 		counts[class]++
+	}
+	// scenario families: slow consumer / failing iterator (first, so that their real waits overlap with the rest)
+	for _, cf := range configs {
+		if cf.shadow && !thorough {
+			continue
+		}
+		patterns, sizes, writes := []string{"mixed"}, []int{30}, 20
+		if thorough {
+			patterns, sizes, writes = []string{"mixed", "update", "create", "delete"}, []int{30, 100}, 40
+		}
+		for _, cmd := range []string{kQuery, kQsub} {
+			for _, n := range sizes {
+				for _, pat := range patterns {
+					prefixes := []string{"s0", "s"}
+					if thorough {
+						prefixes = []string{"s0", "s1", "s"}
+					}
+					for _, prefix := range prefixes {
+						for _, stall := range []int{0, 1500} {
+							if stall > 0 && pat != "mixed" {
+								continue
+							}
+							jobs = append(jobs, Job{Backend: cf.backend, Shadow: cf.shadow,
+								Scen: &Scen{Kind: "slow", Cmd: cmd, Prefix: prefix, StallMS: stall, Writes: writes, Pattern: pat, Records: n}})
+							counts["scenario_slow_consumer"]++
+						}
+					}
+				}
+				if cf.backend != "hashmap" {
+					for _, ck := range []string{"s!", "s15x", "s29z"} {
+						jobs = append(jobs, Job{Backend: cf.backend, Shadow: cf.shadow,
+							Scen: &Scen{Kind: "corrupt", Cmd: cmd, Prefix: "s", Records: n, Corrupt: ck}})
+						counts["scenario_corrupt_record"]++
+					}
+				}
+			}
+		}
 	}
 	// byte strings
 	small := []byte("|1aJ{:}\"cgqsiudnetly \x00\xff\x80\n\\(")
@@ -698,6 +736,7 @@ func run(c *vlib.Ctx) {
 	c.Assume("a subscription notification is required when the written key has the query's prefix and the query has no condition or the new content satisfies 'a > 0'; it is forbidden when prefix or database differ or the known new content does not satisfy the condition; upd and new are not distinguished (the implementation decides by second-granular timestamps)")
 	c.Assume("reusing the operation ID of a still-running sub/qsub for another request is not generated (not a well-formed use of the protocol)")
 	c.Assume("the interleaving clause (concurrent requests, cancels racing queries, writes racing subscriptions) is left to engine S; here every message is run to its terminal reply before the next is sent")
+	c.Assume("scenario families: a connection that stalls on the first ok reply of a query/qsub while two other connections write (and, in one variant, for 1.5 s of real time so that the storage send timeout fires), and a stored record that does not parse (not on hashmap); there every ok/upd/new reply must carry content the record had between the start of the operation and the reply")
 	c.Assume("backends: hashmap, bbolt, fstree, badger (sinkhole and injected storages are not exercised)")
 
 	jobs, counts := buildJobs(c)
@@ -706,8 +745,18 @@ func run(c *vlib.Ctx) {
 	}
 	chunkSize := 60
 	var chunks [][]Job
-	// interleave configurations inside chunks so that slow backends spread over workers
-	for i := 0; i < len(jobs); i += chunkSize {
+	nScen := 0
+	for nScen < len(jobs) && jobs[nScen].Scen != nil {
+		nScen++
+	}
+	for i := 0; i < nScen; i += 2 { // scenario cases wait in real time: spread them
+		e := i + 2
+		if e > nScen {
+			e = nScen
+		}
+		chunks = append(chunks, jobs[i:e])
+	}
+	for i := nScen; i < len(jobs); i += chunkSize {
 		e := i + chunkSize
 		if e > len(jobs) {
 			e = len(jobs)
@@ -747,6 +796,7 @@ func run(c *vlib.Ctx) {
 
 	// report in job order (deterministic witnesses)
 	var states, transitions, evals, unsettled, byteStrings int64
+	scenSamples := 0
 	samplesLeft := map[string]int{"depth1": 2, "depth2": 4, "depth3": 2}
 	for id := range all {
 		rep := r.reports[id]
@@ -773,10 +823,17 @@ func run(c *vlib.Ctx) {
 				c.Outcome("process-death")
 			}
 			for _, o := range rep.outcomes {
+				if j.Scen != nil {
+					o = "scenario-" + j.Scen.Kind + "/" + o
+				}
 				c.Outcome(o)
 			}
 			if rep.nontriv {
-				c.Nontrivial(fmt.Sprintf("%s|%v|%q", j.Backend, j.Shadow, j.Msgs))
+				c.Nontrivial(fmt.Sprintf("%s|%v|%q|%+v", j.Backend, j.Shadow, j.Msgs, j.Scen))
+			}
+			if j.Scen != nil && j.Backend == "bbolt" && j.Scen.Cmd == kQsub && j.Scen.Prefix == "s0" && scenSamples < 2 {
+				scenSamples++
+				c.Sample(map[string]any{"backend": j.Backend, "scenario": j.Scen, "outcomes": rep.outcomes})
 			}
 			if rep.unsett {
 				unsettled++
@@ -819,8 +876,11 @@ func replay(c *vlib.Ctx, r *runner) {
 		c.EngineError("cannot load replay: %v", err)
 		return
 	}
-	j := Job{ID: 0, Backend: w.Backend, Shadow: w.Shadow, Msgs: w.Msgs, Bulk: w.Bulk}
+	j := Job{ID: 0, Backend: w.Backend, Shadow: w.Shadow, Msgs: w.Msgs, Bulk: w.Bulk, Scen: w.Scen}
 	fmt.Printf("replaying %s on %s (shadow delete %v): %v %+v\n", old.Signature, w.Backend, w.Shadow, w.Text, w.Bulk)
+	if w.Scen != nil {
+		fmt.Printf("  scenario %+v\n", *w.Scen)
+	}
 	end := r.runAlone(j, r.guardMS*3)
 	var rep *caseReport
 	if res := end.results[0]; res != nil {
